@@ -153,6 +153,112 @@ def fn (args : List String) : String :=
     | .fuel => "fuel"
   | _ => "bad-op"
 
+/-! ### the bit-level codecs (tree, reverse tree, direct, length, distance) on scripts -/
+
+def mkTree (bits : Nat) : T_treeCodec := { probTree := { probs := Array.replicate (2 ^ bits) 1024#16, bits := BitVec.ofNat 8 bits } }
+def mkRTree (bits : Nat) : T_treeReverseCodec := { probTree := { probs := Array.replicate (2 ^ bits) 1024#16, bits := BitVec.ofNat 8 bits } }
+
+structure Side where
+  t : Array T_treeCodec
+  r : Array T_treeReverseCodec
+  lc : T_lengthCodec
+  dc : T_distCodec
+
+def mkSide : Side :=
+  { t := #[mkTree 3, mkTree 6, mkTree 8, mkTree 1],
+    r := #[mkRTree 4, mkRTree 1, mkRTree 5, mkRTree 2],
+    lc := { choice := #[1024#16, 1024#16], low := Array.replicate 16 (mkTree 3), mid := Array.replicate 16 (mkTree 3), high := mkTree 8 },
+    dc := { posSlotCodecs := Array.replicate 4 (mkTree 6),
+            posModel := (Array.range 10).map (fun i => mkRTree (((4 + i) / 2) - 1)),
+            alignCodec := mkRTree 4 } }
+
+def encObs (err : Go.Err) (g : T_rangeEncoder) : String :=
+  s!"{errName err} {g.low.toNat} {g.nrange.toNat} {g.cacheLen.toInt} {g.lbw.BW.out.length}"
+
+def decObs (err : Go.Err) (v : BitVec 32) (d : T_rangeDecoder) : String :=
+  s!"{errName err} {v.toNat} {d.nrange.toNat} {d.code.toNat} {d.br.inp.length}"
+
+/-- script steps are separated by `;`, fields by `,` -/
+def codecScript (limit : Nat) (steps : List (List String)) : List String := Id.run do
+  let mut g := encInit limit
+  let mut es := mkSide
+  let mut ds := mkSide
+  let mut d : T_rangeDecoder := default
+  let mut out : Array String := #[]
+  let nat (s : String) : Nat := s.toNat?.getD 0
+  let u32 (s : String) : BitVec 32 := BitVec.ofNat 32 (nat s)
+  for st in steps do
+    let fuel := g.cacheLen.toNat + 200
+    match st with
+    | ["te", k, v] =>
+      match treeCodec_Encode fuel (es.t.getD (nat k) default) g (u32 v) with
+      | .ok (err, tc, g') => g := g'; es := { es with t := es.t.setIfInBounds (nat k) tc }; out := out.push (encObs err g)
+      | .panic m => out := out.push ("panic:" ++ m); break
+      | .fuel => out := out.push "fuel"; break
+    | ["re", k, v] =>
+      match treeReverseCodec_Encode fuel (es.r.getD (nat k) default) (u32 v) g with
+      | .ok (err, tc, g') => g := g'; es := { es with r := es.r.setIfInBounds (nat k) tc }; out := out.push (encObs err g)
+      | .panic m => out := out.push ("panic:" ++ m); break
+      | .fuel => out := out.push "fuel"; break
+    | ["de", n, v] =>
+      match directCodec_Encode fuel (BitVec.ofNat 8 (nat n)) g (u32 v) with
+      | .ok (err, g') => g := g'; out := out.push (encObs err g)
+      | .panic m => out := out.push ("panic:" ++ m); break
+      | .fuel => out := out.push "fuel"; break
+    | ["le", l, ps] =>
+      match lengthCodec_Encode fuel es.lc g (u32 l) (u32 ps) with
+      | .ok (err, lc, g') => g := g'; es := { es with lc := lc }; out := out.push (encObs err g)
+      | .panic m => out := out.push ("panic:" ++ m); break
+      | .fuel => out := out.push "fuel"; break
+    | ["De", dist, l] =>
+      match distCodec_Encode fuel es.dc g (u32 dist) (u32 l) with
+      | .ok (err, dc, g') => g := g'; es := { es with dc := dc }; out := out.push (encObs err g)
+      | .panic m => out := out.push ("panic:" ++ m); break
+      | .fuel => out := out.push "fuel"; break
+    | ["close"] =>
+      match rangeEncoder_Close fuel g with
+      | .ok (err, g') => g := g'; out := out.push (encObs err g)
+      | .panic m => out := out.push ("panic:" ++ m); break
+      | .fuel => out := out.push "fuel"; break
+    | ["open"] =>
+      match newRangeDecoder 8 { inp := g.lbw.BW.out } with
+      | .ok (d', err) =>
+        if err != Go.Err.nil then
+          out := out.push ("open " ++ errName err)
+          return out.toList
+        d := d'
+        out := out.push s!"open nil {d.nrange.toNat} {d.code.toNat} {d.br.inp.length}"
+      | .panic m => out := out.push ("panic:" ++ m); break
+      | .fuel => out := out.push "fuel"; break
+    | ["td", k] =>
+      match treeCodec_Decode 200 (ds.t.getD (nat k) default) d with
+      | .ok (v, err, tc, d') => d := d'; ds := { ds with t := ds.t.setIfInBounds (nat k) tc }; out := out.push (decObs err v d)
+      | .panic m => out := out.push ("panic:" ++ m); break
+      | .fuel => out := out.push "fuel"; break
+    | ["rd", k] =>
+      match treeReverseCodec_Decode 200 (ds.r.getD (nat k) default) d with
+      | .ok (v, err, tc, d') => d := d'; ds := { ds with r := ds.r.setIfInBounds (nat k) tc }; out := out.push (decObs err v d)
+      | .panic m => out := out.push ("panic:" ++ m); break
+      | .fuel => out := out.push "fuel"; break
+    | ["dd", n] =>
+      match directCodec_Decode 200 (BitVec.ofNat 8 (nat n)) d with
+      | .ok (v, err, d') => d := d'; out := out.push (decObs err v d)
+      | .panic m => out := out.push ("panic:" ++ m); break
+      | .fuel => out := out.push "fuel"; break
+    | ["ld", ps] =>
+      match lengthCodec_Decode 200 ds.lc d (u32 ps) with
+      | .ok (v, err, lc, d') => d := d'; ds := { ds with lc := lc }; out := out.push (decObs err v d)
+      | .panic m => out := out.push ("panic:" ++ m); break
+      | .fuel => out := out.push "fuel"; break
+    | ["Dd", l] =>
+      match distCodec_Decode 200 ds.dc d (u32 l) with
+      | .ok (v, err, dc, d') => d := d'; ds := { ds with dc := dc }; out := out.push (decObs err v d)
+      | .panic m => out := out.push ("panic:" ++ m); break
+      | .fuel => out := out.push "fuel"; break
+    | _ => out := out.push "bad-token"
+  out := out.push ("out=" ++ hexOf g.lbw.BW.out)
+  return out.toList
+
 def handle (args : List String) : String :=
   match args with
   | "enc" :: limit :: script => match limit.toNat? with
@@ -160,6 +266,9 @@ def handle (args : List String) : String :=
     | none => "bad-op"
   | "dec" :: h :: script => "|".intercalate (decScript (unhexList h) script)
   | "fn" :: rest => fn rest
+  | "codec" :: limit :: steps => match limit.toNat? with
+    | some l => "|".intercalate (codecScript l (steps.map (fun st => st.splitOn ",")))
+    | none => "bad-op"
   | _ => "bad-op"
 
 end GoSrcRun
